@@ -226,6 +226,36 @@ func runUnit(w *World, u *unitRun, tmp string, quickT, slowT int, verbose bool) 
 	g := NewGen(w, fn, u.Fc, pc)
 	g.unit = u.Unit
 	u.G = g
+	if len(u.Fc.RegionLoops) > 0 {
+		// the function is verified only through its regions (one generator per region; results are concatenated)
+		for _, n := range u.Fc.RegionLoops {
+			rg := NewGen(w, fn, u.Fc, pc)
+			rg.unit = fmt.Sprintf("%s[loop%d]", u.Unit, n)
+			if err := rg.RunRegion(n); err != nil {
+				u.Err = err
+				return
+			}
+			if dumpOnly {
+				for _, ob := range rg.Obligations() {
+					fname := filepath.Join(tmp, sanitizeFile(ob.Unit+"__"+ob.Name)+".smt2")
+					_ = os.WriteFile(fname, []byte(rg.Query(ob)), 0o644)
+				}
+				continue
+			}
+			rs := solveAll(tmp, rg, rg.Obligations(), quickT, slowT)
+			u.Results = append(u.Results, rs...)
+			for _, a := range rg.assumptions {
+				g.addAssumption(a)
+			}
+			if verbose {
+				for _, r := range rs {
+					fmt.Fprintf(os.Stderr, "  %-9s %-8s %6dms  %s/%s\n", r.Status, r.Backend, r.Ms, r.Ob.Unit, r.Ob.Name)
+				}
+			}
+		}
+		g.addAssumption("region " + u.Unit + ": only the listed loops are verified, each as a region whose precondition is its loop invariant; that the invariant holds when the loop is first reached, and what the rest of the function does, is not verified")
+		return
+	}
 	if err := g.Run(); err != nil {
 		u.Err = err
 		return
